@@ -277,7 +277,7 @@ func scC12Close(r *Run) {
 }
 
 func init() {
-	register(&PropDef{ID: "C12", Quick: 3200, Thorough: 400000, Profiles: []ProfileDef{
+	register(&PropDef{ID: "C12", Quick: 20000, Thorough: 400000, Profiles: []ProfileDef{
 		{Name: "fault-sweep", Share: 1, Sc: scC12Fault, Sweep: 200},
 		{Name: "close-sweep", Share: 1, Sc: scC12Close, Sweep: 200},
 	}})
